@@ -688,3 +688,25 @@ Proof.
   destruct (String.eqb_spec (cv_value v) (cv_value o')) as [E|E]; simpl; [discriminate|].
   destruct (String.eqb (cv_value v) toast_marker), nomo; simpl; intros H; inversion H; subst; auto.
 Qed.
+
+(* ---------- statements as used in props/C10.v ---------- *)
+Lemma escape_roundtrip_valid : forall s, valid_utf8 s = true -> forall rest,
+  unescape (escape s ++ String c_dq rest) = Some (s, rest).
+Proof. intros s H. apply unescape_escape. apply valid_utf8_Utf8. exact H. Qed.
+
+Lemma decision_table_full : forall nomo c, NoDup (map fst (ch_cols c)) ->
+  (forall k j, In (k, j) (tree_columns nomo c) <->
+     exists v, In (k, v) (ch_cols c) /\ j = pairjson (col_decision nomo (ch_op c) v (aget k (ch_old c)))) /\
+  (forall op v oldv,
+     (op = "DELETE" -> col_decision nomo op v oldv = DOld v) /\
+     (op <> "DELETE" -> oldv = None -> col_decision nomo op v oldv = DNew v) /\
+     (forall o, op <> "DELETE" -> oldv = Some o -> cv_value v = cv_value o -> col_decision nomo op v oldv = DNew v) /\
+     (forall o, op <> "DELETE" -> oldv = Some o -> cv_value v <> cv_value o -> cv_value v <> toast_marker ->
+        col_decision nomo op v oldv = if nomo then DNew v else DBoth v o) /\
+     (forall o, op <> "DELETE" -> oldv = Some o -> cv_value v <> cv_value o -> cv_value v = toast_marker ->
+        col_decision nomo op v oldv = if nomo then DNew o else DBoth o o)).
+Proof. intros nomo c H. split; [exact (tree_columns_spec nomo c H)|intros; apply decision_rows]. Qed.
+
+Lemma lsn_full : forall w, (w < 2 ^ 64)%N ->
+  parse_lsn (fmt_lsn w) = Some w /\ canonical_lsn (fmt_lsn w) = true.
+Proof. intros w H. split; [exact (parse_fmt_lsn w H)|exact (canonical_fmt_lsn w)]. Qed.
